@@ -329,7 +329,6 @@ fn case(ctx: &mut Ctx, t: Transaction) {
 const KINDS: [usize; 5] = [0, 1, 3, 4, 5];
 
 pub fn run(ctx: &mut Ctx) {
-    std::panic::set_hook(Box::new(|i| { eprintln!("PANIC {i}"); }));
     // 0. corpus: every kind with all seven input variants, all five output variants (two contract outputs naming the
     //    same input), three witnesses, every policy set (owner policy naming an input with an owner); an empty script
     for k in KINDS {
